@@ -2,7 +2,7 @@
 import itertools
 
 from .. import instrument
-from ..common import derive_rng, fp, exc_origin, mask, norm
+from ..common import derive_rng, fp, exc_origin, mask, norm, fits
 from ..rtlil import parse as P, eval as E
 
 PROPERTY = "C11"
@@ -337,7 +337,8 @@ def gen_steps(cfg, rng, n):
             else:
                 steps.append(["pulse", [rng.choice(doms)]])
         elif x < 0.96 and depth:
-            steps.append(["poke", rng.randrange(depth), rng.getrandbits(w)])
+            # (also values that do not fit the row: they are truncated like any assignment)
+            steps.append(["poke", rng.randrange(depth), rng.choice([rng.getrandbits(w), rng.getrandbits(w), -1, rng.getrandbits(w + 3), -rng.getrandbits(w) - 1])])
         elif cfg["resets"]:
             steps.append(["rstpulse", rng.choice(doms)])
     return steps
@@ -425,7 +426,12 @@ def cosim(cfg, steps, out, use_rtlil=True):
                           rtlil=rv, rtlil_undef=rx, model=mv, poison=mx)
                         return False
             for i in range(cfg["depth"]):
-                sv = ctx.get(Value.cast(b.mem.data[i])) & full
+                raw = ctx.get(Value.cast(b.mem.data[i]))
+                rsh = Value.cast(b.mem.data[i]).shape()
+                if not fits(raw, rsh.width, rsh.signed):
+                    V("row-read-outside-the-row-shape", steps=steps[:n + 1], step=n, row=i, value=raw, shape=repr(rsh))
+                    return False
+                sv = raw & full
                 mv, mx = ref.rows[i]
                 if (sv & ~mx) != (mv & ~mx):
                     V("simulator-row-vs-model", steps=steps[:n + 1], step=n, row=i, simulator=sv, model=mv, poison=mx)
